@@ -129,20 +129,34 @@ example : delAfterLastSlash (b "DEFINE WUX 1/2 / trailing") 10 = b "DEFINE WUX 1
 /-- `split_sep_congr`: outside quotes, any non-empty run of separators (blank, tab,
 comma, CR, LF, VT, FF, SOH) may be replaced by any other: the token list of the record
 does not change.  With `s' = "\n"` this is the line break between two items. -/
-theorem split_sep_congr (a s s' rest : Bytes) (next : UInt8) (hs : s ≠ []) (hs' : s' ≠ [])
+theorem split_sep_congr (a s s' rest : Bytes) (hs : s ≠ []) (hs' : s' ≠ [])
     (hsep : ∀ x ∈ s, isSep x = true) (hsep' : ∀ x ∈ s', isSep x = true)
-    (hout : tokState none a ≠ some true) :
-    tokenize (a ++ s ++ rest) next = tokenize (a ++ s' ++ rest) next :=
-  OpmVerif.Tok.split_sep_congr a s s' rest next hs hs' hsep hsep' hout
+    (hout : OutsideP a) :
+    tokenize (a ++ s ++ rest) = tokenize (a ++ s' ++ rest) :=
+  OpmVerif.Tok.split_sep_congr a s s' rest hs hs' hsep hsep' hout
 
 /-- Separators in front of the first token are irrelevant. -/
-theorem leading_separators_ignored (s rest : Bytes) (next : UInt8) (hsep : ∀ x ∈ s, isSep x = true) :
-    tokenize (s ++ rest) next = tokenize rest next :=
-  tokenize_sep_prefix s rest next hsep
+theorem leading_separators_ignored (s rest : Bytes) (hsep : ∀ x ∈ s, isSep x = true) :
+    tokenize (s ++ rest) = tokenize rest :=
+  tokenize_sep_prefix s rest hsep
 
-example : tokState none (b " 'P 1' 'G'") ≠ some true := by decide +kernel
-example : tokenize (b " 'P 1' 'G'" ++ b " " ++ b "3 4") 47 = tokenize (b " 'P 1' 'G'" ++ b ",\t\r\n  " ++ b "3 4") 47 := by decide +kernel
-example : tokenize (b " 'P 1' 'G',\t\r\n  3 4") 47 = [b "'P 1'", b "'G'", b "3", b "4"] := by decide +kernel
+example : OutsideP (b " 'P 1' 'G'") ∧ ¬ OutsideP (b " 'P 1' 2*'A") := by decide +kernel
+example : tokenize (b " 'P 1' 'G'" ++ b " " ++ b "3 4") = tokenize (b " 'P 1' 'G'" ++ b ",\t\r\n  " ++ b "3 4") := by decide +kernel
+example : tokenize (b " 'P 1' 'G',\t\r\n  3 4") = [b "'P 1'", b "'G'", b "3", b "4"] := by decide +kernel
+
+/-- `n*'quoted value with blanks'` is one token (fix 15beb5677): digits, `*`, an opening quote,
+any quote-free body — blanks, commas, line breaks included — and the closing quote, followed
+by a separator or the end of the record.  (`OutsideP` in `split_sep_congr` accordingly
+counts the quoted part of such a token as "inside quotes".) -/
+theorem star_quoted_is_one_token (ds body rest : Bytes) (hne : ds ≠ []) (hd : ∀ d ∈ ds, isDigit d = true)
+    (hb : ∀ x ∈ body, x ≠ 39) (hr : SepStart rest) :
+    tokenize (ds ++ 42 :: 39 :: body ++ 39 :: rest) = (ds ++ 42 :: 39 :: body ++ [39]) :: tokenize rest :=
+  tok_star_quoted ds body rest hne hd hb hr
+
+example : tokenize (b "2*'A B' 7") = [b "2*'A B'", b "7"] ∧ tokenize (b "12*'a,\n b'") = [b "12*'a,\n b'"] := by
+  decide +kernel
+example : (b "2" ≠ []) ∧ (∀ d ∈ b "2", isDigit d = true) ∧ (∀ x ∈ b "A B", x ≠ 39) ∧ SepStart (b " 7") := by
+  refine ⟨by decide +kernel, by decide +kernel, by decide +kernel, Or.inr ⟨32, b "7", by decide +kernel, by decide +kernel⟩⟩
 
 /-- `assemble_linebreak`: while a keyword is being assembled (RawKeyword state `k`, record
 buffer `buf`), a line `a ++ s ++ b` may be written as the two lines `a`, `b` (`s` a
@@ -152,7 +166,7 @@ records as token lists, termination — and the lines left for the next keyword 
 theorem assemble_linebreak (recog : Bytes → Bool) (k : Kw) (hraw : k.raw = false)
     (buf gap a s rest' : Bytes) (rest : List Bytes)
     (hane : a ≠ []) (hbne : rest' ≠ []) (hs : s ≠ []) (hsep : ∀ c ∈ s, isSep c = true)
-    (ha : BalancedNoSlash a) (hout : tokState none (extendBuf buf gap a) ≠ some true)
+    (ha : BalancedNoSlash a) (hout : OutsideP (extendBuf buf gap a))
     (hra : (k.canComplete && recog (makeDeckName a)) = false)
     (hrb : (k.canComplete && recog (makeDeckName rest')) = false) :
     feedLines recog k buf gap ((a ++ s ++ rest') :: rest) = feedLines recog k buf gap (a :: rest' :: rest) :=
@@ -162,14 +176,14 @@ theorem assemble_linebreak (recog : Bytes → Bool) (k : Kw) (hraw : k.raw = fal
 anywhere inside a keyword (between records, or between the lines of a record outside a
 quoted token) changes neither the raw keyword nor the lines left over. -/
 theorem blank_line_inside_keyword (recog : Bytes → Bool) (k : Kw) (buf gap : Bytes) (lines : List Bytes)
-    (hgap : ∀ c ∈ gap, isSep c = true) (hout : buf = [] ∨ tokState none buf ≠ some true) :
+    (hgap : ∀ c ∈ gap, isSep c = true) (hout : buf = [] ∨ OutsideP buf) :
     feedLines recog k buf gap ([] :: lines) = feedLines recog k buf gap lines :=
   feedLines_empty_line recog k buf gap lines hgap hout
 
 def demoKw : Kw := { sizeType := .slashTerminated, raw := false, records := [], minSize := 0, fixedSize := 0,
                      numTables := 0, curTables := 0, tempFinished := false, finished := false }
 
-example : BalancedNoSlash (b "'P 1' 'G'") ∧ tokState none (extendBuf [] [] (b "'P 1' 'G'")) ≠ some true := by decide +kernel
+example : BalancedNoSlash (b "'P 1' 'G'") ∧ OutsideP (extendBuf [] [] (b "'P 1' 'G'")) := by decide +kernel
 example : feedLines (fun _ => false) demoKw [] [] [b "'P 1' 'G'  3 4 /", b "/"] =
           feedLines (fun _ => false) demoKw [] [] [b "'P 1' 'G'", b "3 4 /", b "/"] := by decide +kernel
 example : feedLines (fun _ => false) demoKw (b "'P 1' 'G'") [] [[], b "3 4 /", [], b "/"] =
@@ -259,9 +273,29 @@ star expansion of a token, trailing `1*` — and every derivation, i.e. every co
 rewrites in any order and number, leaves the parsed record (items, values, default flags,
 or the error) unchanged. -/
 theorem relayout_compose (cv : Conv) (items : List Item) (hraw : ∀ it ∈ items, it.raw = false)
-    (next : UInt8) {x y : Bytes} (h : Relayout items x y) :
-    parseRecord cv items x next = parseRecord cv items y next :=
-  OpmVerif.Scan.relayout_compose cv items hraw next h
+    {x y : Bytes} (h : Relayout items x y) :
+    parseRecord cv items x = parseRecord cv items y :=
+  OpmVerif.Scan.relayout_compose cv items hraw h
+
+/-- Star expansion of a quoted value with blanks (the rule `Relayout.starq`, a special case of
+`relayout_compose`): `n*'A B'` standing between separators, outside quotes, parses like
+`'A B'` written `n` times — same items, values, default flags, or the same error. -/
+theorem star_quoted_expand (cv : Conv) (items : List Item) (hraw : ∀ it ∈ items, it.raw = false)
+    (a s1 ds body s2 rest : Bytes) (n : Nat) (hout : OutsideP a)
+    (hs1 : s1 ≠ []) (hsep1 : ∀ c ∈ s1, isSep c = true) (hs2 : s2 ≠ []) (hsep2 : ∀ c ∈ s2, isSep c = true)
+    (hne : ds ≠ []) (hd : ∀ d ∈ ds, isDigit d = true) (hb : ∀ c ∈ body, c ≠ 39)
+    (hexp : StarExp (ds ++ 42 :: 39 :: body ++ [39]) (List.replicate n (39 :: body ++ [39]))) :
+    parseRecord cv items (a ++ s1 ++ ((ds ++ 42 :: 39 :: body ++ [39]) ++ s2 ++ rest)) =
+      parseRecord cv items (a ++ s1 ++ (joinBlank (List.replicate n (39 :: body ++ [39])) ++ s2 ++ rest)) :=
+  OpmVerif.Scan.relayout_compose cv items hraw
+    (Relayout.starq a s1 ds body s2 rest n hout hs1 hsep1 hs2 hsep2 hne hd hb hexp)
+
+example : StarExp (b "2*'A B'") (List.replicate 2 (b "'A B'")) :=
+  ⟨2, b "'A B'", by decide +kernel, Or.inl ⟨by decide +kernel, by decide +kernel, by decide +kernel⟩⟩
+example : parseRecord demoConv [⟨.int, false, none⟩, ⟨.string, true, none⟩] (b " 5 2*'A B' ") =
+    parseRecord demoConv [⟨.int, false, none⟩, ⟨.string, true, none⟩] (b " 5 'A B' 'A B' ") ∧
+    parseRecord demoConv [⟨.int, false, none⟩, ⟨.string, true, none⟩] (b " 5 2*'A B' ") =
+      some [[(.int 5, .deck)], [(.str (b "A B"), .deck), (.str (b "A B"), .deck)]] := by decide +kernel
 
 /-- a derivation with three different rules: expand `2*5`, turn a blank into a line break
 with a tab, append two `1*`. -/
@@ -271,7 +305,7 @@ example : Relayout demoSchema (b " 'W 1' 2*5 ") (b " 'W 1'\n\t5 5  1* 1*") := by
       (by decide +kernel) (by decide +kernel) (by decide +kernel) (by decide +kernel) (by decide +kernel)
       (by decide +kernel)
       ⟨2, b "5", by decide +kernel, Or.inl ⟨by decide +kernel, by decide +kernel, by decide +kernel⟩⟩
-      (by decide +kernel) (by decide +kernel) (by decide +kernel)
+      (by decide +kernel)
     have e1 : b " 'W 1'" ++ b " " ++ (b "2*5" ++ b " " ++ []) = b " 'W 1' 2*5 " := by decide +kernel
     have e2 : b " 'W 1'" ++ b " " ++ (joinBlank [b "5", b "5"] ++ b " " ++ []) = b " 'W 1' 5 5 " := by decide +kernel
     rw [e1, e2] at h; exact h
@@ -282,14 +316,14 @@ example : Relayout demoSchema (b " 'W 1' 2*5 ") (b " 'W 1'\n\t5 5  1* 1*") := by
     have e2 : b " 'W 1'" ++ b "\n\t" ++ b "5 5 " = b " 'W 1'\n\t5 5 " := by decide +kernel
     rw [e1, e2] at h; exact h
   have h3 : Relayout demoSchema (b " 'W 1'\n\t5 5 ") (b " 'W 1'\n\t5 5  1* 1*") := by
-    have h := Relayout.trail (items := demoSchema) (b " 'W 1'\n\t5 5 ") 2 47 (by decide +kernel) (by decide +kernel)
+    have h := Relayout.trail (items := demoSchema) (b " 'W 1'\n\t5 5 ") 2 (by decide +kernel) (by decide +kernel)
       (by decide +kernel)
     have e2 : b " 'W 1'\n\t5 5 " ++ 32 :: joinBlank (List.replicate 2 oneStar) = b " 'W 1'\n\t5 5  1* 1*" := by
       decide +kernel
     rw [e2] at h; exact h
   exact Relayout.trans h1 (Relayout.trans h2 h3)
 
-example : parseRecord demoConv demoSchema (b " 'W 1' 2*5 ") 47 =
+example : parseRecord demoConv demoSchema (b " 'W 1' 2*5 ") =
     some [[(.str (b "W 1"), .deck)], [(.int 5, .deck)], [(.int 5, .deck)], [(.int 9, .dflt)],
           [(.str (b "OPEN"), .dflt)], [(.dummy, .empty)], []] := by decide +kernel
 
